@@ -107,6 +107,11 @@ pub struct PlanR {
     /// context kinds: 0 Minimal::new, 1 Minimal::default, 2 Plain::new, 3 Plain::default
     pub ctxs: Vec<u8>,
     pub events: Vec<Ev>,
+    /// seed of the identifier source behind OpHandle (hook H3). 0: not seeded (plans
+    /// recorded before the hook existed); otherwise bit 0 selects identifiers which
+    /// differ from a common base in one 16 bit field only
+    #[serde(default)]
+    pub ids: u64,
 }
 
 fn yes() -> bool {
@@ -513,7 +518,7 @@ impl Engine for RegSim {
         EngineInfo {
             rule: "regsim: one run = up to four contexts (seeded mix of Minimal::new/default and Plain::new/default) sharing one scratch disk with the two search roots (./geodesy and $XDG_DATA_HOME/geodesy) and the process wide grid cache, driven through a seeded history of register_resource (new names, re-registration, built-in adaptor names, a name without colon), register_op (new names, names of built-ins, a colon name, a constructor that refuses), op (definitions over built-ins, user operators, run-time and file macros incl. nested and self-referential ones, grid operators incl. optional grids, unknown names, with/without inv), apply/steps/params (own, foreign and forged handles), Plain::clear_grids, and disk events (write/replace/delete/break resource files and registers in either root; register layouts: several fenced items in any order, item first in file, item last without terminator, unrelated fenced blocks, LF/CRLF/CR; write/replace/delete constant-valued grid files). Reference model: regmodel.rs (documented resolution order over an exactly representable translation algebra). After every event: the outcome equals the model's, and every operator ever created in any context still has its creation-time fingerprint (outputs on probes both directions, step list, first step's parameters). Non-trivial = at least one op() after at least one registration or disk event; distinct = hash of the event-kind sequence with name classes.",
             real_components: &["geodesy Minimal and Plain contexts, Op::op resolution, macro expansion, grid cache, gridshift/helmert/addone operators", "std::fs on a tmpfs scratch tree with two search roots"],
-            simulated_components: &["the history of API calls across contexts", "resource/register/grid file contents and their faults (absent, directory in place, invalid UTF-8, dangling symlink, replaced while cached)"],
+            simulated_components: &["the history of API calls across contexts", "resource/register/grid file contents and their faults (absent, directory in place, invalid UTF-8, dangling symlink, replaced while cached)", "the identifier source behind OpHandle (hook H3: seeded, pairwise distinct version 4 UUIDs, in about half of the runs differing from a common base in one 16 bit field only)"],
             assumptions: &[
                 "macro invocations carry no arguments (argument passing is C04's subject), so that a macro's value is its body's value",
                 "the sequential cache model is exact: a grid lookup is served from the cache if the name is cached, else from the first root holding the file",
@@ -533,6 +538,8 @@ impl Engine for RegSim {
 
     fn generate(&self, _index: u64, seed: u64, _tier: Tier) -> PlanR {
         let mut rng = Rng::new(seed);
+        // (from a copy of the generator: the plans of earlier engine versions stay as they were)
+        let ids = rng.clone().fork().next_u64() | 2;
         let n_ctx = 1 + rng.below(4);
         let ctxs: Vec<u8> = (0..n_ctx).map(|_| if rng.chance(0.65) { 2 + rng.below(2) as u8 } else { rng.below(2) as u8 }).collect();
         let n_events = 4 + rng.below(*rng.clone().pick(&[8, 20, 45]));
@@ -625,7 +632,7 @@ impl Engine for RegSim {
         // in place before the first instantiation
         let (mut setup, rest): (Vec<Ev>, Vec<Ev>) = events.into_iter().partition(|e| matches!(e, Ev::WriteResource { .. } | Ev::BreakResource { .. } | Ev::DeleteResource { .. }));
         setup.extend(rest);
-        PlanR { roots_exist: rng.chance(0.6), ctxs, events: setup }
+        PlanR { roots_exist: rng.chance(0.6), ctxs, events: setup, ids }
     }
 
     fn plan_size(&self, plan: &PlanR) -> usize {
@@ -637,7 +644,7 @@ impl Engine for RegSim {
         let n = plan.events.len();
         // Dropping an Op event shifts the ordinals of later operators: renumber
         let drop_range = |s: usize, e: usize| -> PlanR {
-            let mut p = PlanR { roots_exist: plan.roots_exist, ctxs: plan.ctxs.clone(), events: Vec::new() };
+            let mut p = PlanR { roots_exist: plan.roots_exist, ctxs: plan.ctxs.clone(), events: Vec::new(), ids: plan.ids };
             // ordinal map
             let mut map: Vec<Option<u16>> = Vec::new();
             let mut next = 0u16;
@@ -725,6 +732,11 @@ impl Engine for RegSim {
             rec.probe("context_created_before_its_search_roots");
         }
         Plain::verif_reset_grids();
+        // the identifiers of this run's handles: a function of the plan (hook H3)
+        geodesy::verif_seam::uuid::seed(if plan.ids == 0 { None } else { Some((plan.ids, plan.ids & 1 == 1)) });
+        if plan.ids & 1 == 1 {
+            rec.probe("handles_differ_in_one_16_bit_field_only");
+        }
         let n_ctx = plan.ctxs.len().max(1);
         let mut ctxs: Vec<AnyCtx> = plan.ctxs.iter().map(|k| AnyCtx::make(*k)).collect();
         let mut world = World {
